@@ -121,6 +121,13 @@ func (w *World) verifyUnit(u *Unit) *Exec {
 				}
 				e.succNamed[m[1]] = true
 			}
+			for _, m := range lastretRe.FindAllStringSubmatch(t, -1) {
+				if e.lastretNamed == nil {
+					e.lastretNamed = map[string]bool{}
+				}
+				e.lastretNamed[m[1]] = true
+				e.heapMap("GS_ret."+sanitize(m[1]), "Int")
+			}
 			for _, m := range callsRe.FindAllStringSubmatch(t, -1) {
 				if e.callsNamed == nil {
 					e.callsNamed = map[string]bool{}
